@@ -101,6 +101,40 @@ def run_case(arg):
                                       mask=np.ones((sr, sc), dtype=bool), fit_function="constant")
             if max(np.abs(fr - const[0, 0]).max(), np.abs(fc - const[0, 1]).max()) > 1e-6:
                 bad("C18:fit_origin:constant", "constant surface not returned")
+            # 4b. the workflow as a history on ONE object: the steps after calculate_origin only read the measured
+            # origins (TableStable), a repeated step repeats its answer, and forward() does not depend on the batch size
+            om = CenterOfMassOriginModel.from_dataset(ds, device="cpu")
+            om.calculate_origin(max_batch_size=2)
+            fm = "plane" if (sr >= 2 and sc >= 2) else "constant"
+            om.fit_origin_background(fit_method=fm)
+            fit0 = om.origin_fitted.detach().clone()
+            om.estimate_detector_rotation()
+            rot0 = (om.detector_rotation_deg, om.detector_transpose)
+            got = om.origin_measured.detach().cpu().numpy()
+            if got.shape != (n, 2) or np.abs(got - com).max() > TOL:
+                bad("C18:origin-model:history:measured-changed", f"after fit + detector-rotation estimate the measured origins deviate from the "
+                                                                 f"centre of mass by {np.abs(got - com).max():.4f}")
+            if not torch.equal(om.origin_fitted.detach(), fit0):
+                bad("C18:origin-model:history:fitted-changed", "the detector-rotation estimate changed the fitted origins")
+            om.estimate_detector_rotation()
+            om.fit_origin_background(fit_method=fm)
+            if (om.detector_rotation_deg, om.detector_transpose) != rot0 or \
+                    float((om.origin_fitted.detach() - fit0).abs().max()) > 1e-4:
+                bad("C18:origin-model:history:repeat", "repeating the rotation estimate / the fit on the same object gives another answer")
+            ref = None
+            for bsz in (None, 1, max(1, n - 2), n + 3):
+                omf = CenterOfMassOriginModel.from_dataset(ds, device="cpu")
+                omf.forward(max_batch_size=bsz, fit_method=fm)
+                cur = (omf.origin_measured.detach().cpu().numpy(), omf.origin_fitted.detach().cpu().numpy(),
+                       omf.shifted_tensor.detach().cpu().numpy())
+                if np.abs(cur[0] - com).max() > TOL:
+                    bad("C18:origin-model:forward:measured", f"forward(max_batch_size={bsz}): measured origins deviate from the centre of mass "
+                                                             f"by {np.abs(cur[0] - com).max():.4f}")
+                    break
+                if ref is not None and (np.abs(cur[1] - ref[1]).max() > 1e-4 or np.abs(cur[2] - ref[2]).max() > 1e-3 * max(1.0, np.abs(ref[2]).max())):
+                    bad("C18:origin-model:forward:batch", f"forward(max_batch_size={bsz}) differs from the un-batched workflow")
+                    break
+                ref = ref or cur
             # 5. integer origin -> corner is the circular roll
             ro = np.array(case["rollOrigins"], dtype=float)
             rolled = np.array(case["rolled"], dtype=np.float32).reshape(sr, sc, dr, dc)
